@@ -871,7 +871,7 @@ let () = register "c20" (fun line ->
     let i f = int_of_z f in
     let cmds = L.sort compare (L.map (fun (n, c) ->
       Printf.sprintf "%s=%d/%d/%d" (string_of_coq n) (i c.Stats.c_total) (i c.Stats.c_success) (i c.Stats.c_error)) s.Stats.cmds) in
-    Printf.sprintf "cx_total=%d cx_destroy=%d cx_active=%d cx_restricted=%d rq_total=%d rq_success=%d rq_failure=%d ||%s || upstream_conserved=1"
+    Printf.sprintf "cx_total=%d cx_destroy=%d cx_active=%d cx_restricted=%d rq_total=%d rq_success=%d rq_failure=%d ||%s || upstream_conserved=1 || gauges=ok"
       (i s.Stats.cx_total) (i s.Stats.cx_destroy) (i s.Stats.cx_active) (i s.Stats.cx_restricted) (i s.Stats.rq_total) (i s.Stats.rq_success) (i s.Stats.rq_failure)
       (if cmds = [] then " -" else S.concat "" (L.map (fun c -> " " ^ c) cmds)))
 
@@ -890,6 +890,7 @@ let () = register "c16" (fun line ->
         (match Stdlib.String.get op 0 with
          | 's' -> [Discovery.DSubscribe (num ())]
          | 'U' -> [Discovery.DStreamUp; Discovery.DSubscribe (num ())]
+         | 'B' -> Discovery.DStreamUp :: L.init (int_of_string (S.sub op 1 (S.length op - 1))) (fun k -> Discovery.DSubscribe (n_of_int (100 + k)))
          | _ -> [Discovery.DUnsubscribe (num ())]) in
     L.iter (fun o -> st := Discovery.dstep false !st o) os;
     if op = "f" then
@@ -944,7 +945,11 @@ let () = register "c09" (fun line ->
     Printf.sprintf "serve-returned=%b port-open=%b" (s.phase = PReturned) s.bound
   | "stop-halfclosed-silent" -> report "" (run ([LServeBegin; LBindOk; LAccept; LStop]))
   | "stop-before-start" -> report "" (run [LStop])
-  | "stop-active" | "stop-backend-down" | "stop-silent-backend" -> report "" (run ([LServeBegin; LBindOk] @ accepts @ [LStop]))
+  | "stop-active" | "stop-backend-down" | "stop-silent-backend" | "stop-after-conn-loss" -> report "" (run ([LServeBegin; LBindOk] @ accepts @ [LStop]))
+  | "accept-emfile" ->
+    (* accept fails temporarily a few times; the connection that was waiting is then served *)
+    let s = run [LServeBegin; LBindOk; LAcceptTemp; LAcceptTemp; LAcceptTemp; LAccept] in
+    report (if int_of_nat s.lconns = 1 then "new=served " else "new=UNSERVED ") (lstep true s LStop)
   | "drain-then-stop" ->
     let s = run ([LServeBegin; LBindOk] @ accepts @ [LDrain]) in
     let kept = int_of_nat s.lconns = n in
